@@ -28,6 +28,7 @@ func init() {
 	Registry["C16"] = genC16
 	SubRegistry["c16-mitm"] = subC16Mitm
 	SubRegistry["c16-insider"] = subC16Insider
+	SubRegistry["c16-sigseq"] = subC16SigSeq
 }
 
 // ---------------------------------------------------------------- a byte-level proxy
@@ -442,6 +443,155 @@ func subC16Insider(arg string) string {
 	return strings.Join(got, " ") + "|"
 }
 
+// ---------------------------------------------------------------- scenario: a key-holding peer, a scripted packet sequence
+//
+// One connection, a sequence of packets; each step is either a correctly signed packet or a packet
+// with a NEW payload that carries the signature bytes of an earlier packet of the same connection
+// (the last accepted one, the first one, any one): a signature that was accepted for one payload
+// says nothing about another payload.  Whether a packet is authentic is not taken from the script
+// but decided with bls.Verify under the key presented in the handshake.
+//
+// arg: steps=<tok>+<tok>+...,pace=<ms>,seed=..   tokens (step number n = position in the list):
+//   v        vss.Signature{Index: n}, correctly signed
+//   vp       p2p.Ping{Count: n}, correctly signed
+//   r<j>     vss.Signature{Index: n} carrying the signature bytes of step j's packet
+//   r<j>p    p2p.Ping{Count: n} carrying the signature bytes of step j's packet
+//   x<j>     step j's own message with one more field set (same type, same index, other bytes),
+//            carrying the signature bytes of step j's packet
+// prints "delivered keys | authentic keys | notes"   (key = <type>.<n>, type 0 = vss.Signature, 6 = Ping;
+// a delivery whose bytes are not those of packet n is printed as <type>.<n>!)
+func subC16SigSeq(arg string) string {
+	a := parseArg(arg)
+	steps := strings.Split(a["steps"], "+")
+	pace := time.Duration(atoi(a["pace"])) * time.Millisecond
+	pa := freePort()
+	mem := &staticMembers{addrs: map[string]string{}}
+	sa := startServer("a", pa, mem)
+	var mu sync.Mutex
+	var got []string
+	sentRaw := map[string][]byte{}
+	collect := func(ch chan p2p.P2PMessage) {
+		for m := range ch {
+			t, n := -1, -1
+			switch x := m.Msg.Message.(type) {
+			case *vss.Signature:
+				t, n = 0, int(x.Index)
+			case *p2p.Ping:
+				t, n = 6, int(x.Count)
+			}
+			key := fmt.Sprintf("%d.%d", t, n)
+			raw, _ := proto.Marshal(m.Msg.Message)
+			mu.Lock()
+			if want, ok := sentRaw[key]; !ok || string(want) != string(raw) {
+				key += "!"
+			}
+			got = append(got, key)
+			mu.Unlock()
+		}
+	}
+	chS, _ := sa.SubscribeMsg(50, vss.Signature{})
+	chP, _ := sa.SubscribeMsg(50, p2p.Ping{})
+	go collect(chS)
+	go collect(chP)
+	time.Sleep(20 * time.Millisecond)
+	peer, err := dialRaw("127.0.0.1:"+pa, []byte("evil"))
+	if err != nil {
+		return "dial-failed:" + err.Error()
+	}
+	pub := Bn.G2().Point().Mul(peer.sec, nil)
+	sigs := make([][]byte, len(steps))
+	msgs := make([]proto.Message, len(steps))
+	var authentic, notes []string
+	// the receiver closes the connection (asynchronously) once it has rejected a packet: what is sent
+	// after the first packet that does not verify may or may not still be handled
+	nAuth, sawBad := 0, false
+	for n, tok := range steps {
+		var msg proto.Message
+		from := -1
+		ping := strings.HasSuffix(tok, "p")
+		body := strings.TrimSuffix(tok, "p")
+		switch {
+		case body == "v":
+		case strings.HasPrefix(body, "r") || strings.HasPrefix(body, "x"):
+			from = atoi(body[1:])
+			if from < 0 || from >= n || sigs[from] == nil {
+				return "bad-script:" + tok
+			}
+		default:
+			return "bad-script:" + tok
+		}
+		t := 0
+		if strings.HasPrefix(body, "x") {
+			switch o := msgs[from].(type) {
+			case *vss.Signature:
+				msg = &vss.Signature{Index: o.Index, RequestId: o.RequestId, Content: []byte{byte(n), 1}}
+			case *p2p.Ping:
+				// the same count cannot be encoded in other bytes: another count
+				msg = &p2p.Ping{Count: uint64(n)}
+				t = 6
+			}
+		} else if ping {
+			msg = &p2p.Ping{Count: uint64(n)}
+			t = 6
+		} else {
+			msg = &vss.Signature{Index: uint32(n), RequestId: []byte("x")}
+		}
+		msgs[n] = msg
+		an, _ := ptypes.MarshalAny(msg)
+		var sg []byte
+		if from >= 0 {
+			sg = append([]byte{}, sigs[from]...)
+		} else {
+			sg, _ = bls.Sign(Bn, peer.sec, an.Value)
+		}
+		sigs[n] = sg
+		key := fmt.Sprintf("%d.%d", t, n)
+		if x, ok := msg.(*vss.Signature); ok && int(x.Index) != n {
+			key = fmt.Sprintf("%d.%d", t, x.Index) // x<j>: the index of step j, other bytes
+		}
+		raw, _ := proto.Marshal(msg)
+		isAuth := bls.Verify(Bn, pub, an.Value, sg) == nil
+		mu.Lock()
+		if isAuth {
+			sentRaw[key] = raw
+		} else if _, ok := sentRaw[key]; !ok {
+			sentRaw[key] = nil // never authentic: whatever is delivered under this key is marked
+		}
+		mu.Unlock()
+		if isAuth {
+			authentic = append(authentic, key)
+			if !sawBad {
+				nAuth++
+			}
+		} else {
+			sawBad = true
+		}
+		if (from < 0) != isAuth {
+			notes = append(notes, fmt.Sprintf("step %d (%s): bls.Verify says authentic=%v", n, tok, isAuth))
+		}
+		b, _ := proto.Marshal(&p2p.Package{Anything: an, Sender: peer.id, Signature: sg, RequestNonce: uint64(n)})
+		peer.sendPlain(b)
+		if pace > 0 {
+			time.Sleep(pace)
+		}
+	}
+	// until every authentic packet before the first bad one has arrived (bounded), then a settling
+	// time for anything else
+	for dl := time.Now().Add(4 * time.Second); time.Now().Before(dl); {
+		mu.Lock()
+		n := len(got)
+		mu.Unlock()
+		if n >= nAuth {
+			break
+		}
+		time.Sleep(10 * time.Millisecond)
+	}
+	time.Sleep(300 * time.Millisecond)
+	mu.Lock()
+	defer mu.Unlock()
+	return strings.Join(got, " ") + "|" + strings.Join(authentic, " ") + "|" + strings.Join(notes, "; ")
+}
+
 // ---------------------------------------------------------------- generator
 
 func genC16(rng *hx.Rng, tier string, w *hx.Writer) error {
@@ -670,6 +820,134 @@ func genC16(rng *hx.Rng, tier string, w *hx.Writer) error {
 						return "receiver-hang", "the scenario did not finish (" + sc + ")"
 					}
 					return "unauthentic-delivery", "a packet whose payload signature does not verify under the handshake key was delivered (" + sc + "): " + out
+				},
+			})
+		}
+	}
+	// a peer that holds the session key sends a SEQUENCE of packets on one connection: correctly
+	// signed ones and packets with a new payload that carry the signature bytes of an earlier packet
+	// of the connection (the last accepted one, the first one, any earlier one; the same or another
+	// message type).  Judged: what is delivered is exactly the set of packets whose signature verifies
+	// (bls.Verify in the scenario) for their payload under the handshake key, each once, byte-for-byte.
+	{
+		nSeq := 10
+		if tier == "thorough" {
+			nSeq = 60
+		}
+		fixed := [][]string{
+			{"v", "r0", "v"},
+			{"v", "v", "v", "r2", "v"},
+			{"v", "v", "v", "r0", "v"},
+			{"vp", "vp", "r1p", "r1p", "vp"},
+		}
+		for it := 0; it < nSeq; it++ {
+			var steps []string
+			if it < len(fixed) {
+				steps = fixed[it]
+			} else {
+				n := 3 + rng.Intn(6)
+				var valid []int
+				for i := 0; i < n; i++ {
+					p := ""
+					if rng.Intn(3) == 0 {
+						p = "p"
+					}
+					switch {
+					case i == 0 || i == n-1 || rng.Intn(2) == 0:
+						steps = append(steps, "v"+p)
+						valid = append(valid, i)
+					default:
+						j := valid[len(valid)-1] // mostly the packet accepted last
+						if rng.Intn(3) == 0 {
+							j = valid[rng.Intn(len(valid))]
+						}
+						if rng.Intn(4) == 0 {
+							steps = append(steps, fmt.Sprintf("x%d", j))
+						} else {
+							steps = append(steps, fmt.Sprintf("r%d%s", j, p))
+						}
+					}
+				}
+			}
+			pace := []int{0, 0, 3, 25}[it%4]
+			arg := fmt.Sprintf("steps=%s,pace=%d,seed=%d", strings.Join(steps, "+"), pace, it+1)
+			// the model's stream
+			var frames []string
+			typeOf := make([]int, len(steps))
+			firstBad := -1
+			for n, tok := range steps {
+				t := 0
+				if strings.HasSuffix(tok, "p") {
+					t = 6
+				}
+				body := strings.TrimSuffix(tok, "p")
+				if body == "v" {
+					typeOf[n] = t
+					frames = append(frames, honestFrame(t, n))
+					continue
+				}
+				j := atoi(body[1:])
+				if body[0] == 'x' {
+					t = typeOf[j]
+				}
+				typeOf[n] = t
+				// content id n+5000: not the content of any honest packet; signed content: that of step j
+				frames = append(frames, hx.L(hx.Zi(2), hx.Zi(1), hx.L(hx.Zi(t), hx.Zi(n+5000)), hx.Zi(1),
+					hx.L(hx.Zi(1), hx.L(hx.Zi(typeOf[j]), hx.Zi(j))), hx.Zi(n), hx.Zi(0)))
+				if firstBad < 0 {
+					firstBad = n
+				}
+			}
+			fb, st := firstBad, steps
+			jobs = append(jobs, &c12job{
+				c:   hx.Case{Entry: "p2precv", Op: 1, Args: hx.L(hx.Zi(1), hx.Zi(1), hx.L(frames...)), Tags: []string{"insider-seq", "k:sig-reused", "nt"}},
+				sub: "c16-sigseq", arg: arg, timeout: 30 * time.Second, group: "p2p-connection",
+				finish: func(out string) (string, bool) {
+					parts := strings.SplitN(out, "|", 3)
+					if len(parts) < 3 {
+						return hx.B([]byte(out)), false
+					}
+					ds, auth := strings.Fields(parts[0]), strings.Fields(parts[1])
+					ok := parts[2] == ""
+					isAuth := map[string]bool{}
+					for _, k := range auth {
+						isAuth[k] = true
+					}
+					seen := map[string]int{}
+					for _, d := range ds {
+						seen[d]++
+						// only packets whose signature verifies, byte-for-byte, each once
+						if !isAuth[d] || seen[d] > 1 {
+							ok = false
+						}
+					}
+					// the guaranteed prefix: each packet sent before the first bad one is delivered (the
+					// connection is closed, asynchronously, after a rejected packet), then the error
+					var impl []string
+					for n := range st {
+						if n == fb {
+							break
+						}
+						if k := fmt.Sprintf("%d.%d", typeOf[n], n); seen[k] > 0 {
+							impl = append(impl, deliver(typeOf[n], n))
+						} else {
+							ok = false
+						}
+					}
+					if fb >= 0 {
+						impl = append(impl, hx.E)
+					}
+					return hx.L(impl...), ok
+				},
+				explain: func(class, out, panicLine string) (string, string) {
+					sc := "driver sub c16-sigseq " + arg
+					switch class {
+					case "P":
+						return "receiver-crash", "the receiver crashed (" + sc + "): " + panicLine
+					case "H":
+						return "receiver-hang", "the scenario did not finish (" + sc + ")"
+					}
+					return "signature-not-bound-to-payload", "on one connection, a packet whose payload signature does not verify under the handshake key was delivered, or a correctly signed packet sent before any bad one was not (delivered | authentic | notes; " + sc + "): " + out
 				},
 			})
 		}
